@@ -784,6 +784,7 @@ func ruleSSubUse(c *Ctx) {
 				if d > 8 {
 					return false
 				}
+				v = env.Val(v) // a helper's parameter is the argument it was called with
 				if v == ssa.Value(sub) {
 					return true
 				}
